@@ -188,6 +188,74 @@ Example C23_run_nonvacuous :
   = [OYield 1; OYield 0; OYield 2; ORaise ERequestAbort].
 Proof. vm_compute. repeat split; reflexivity. Qed.
 
+(* ------------------------------------------------------------------ closed or halted: close() / thrown GeneratorExit, PlanHalt *)
+From BV Require Import Proofs.PairedClose.
+
+(* The script is  s ++ i :: s2  with s plain and i = Close or a thrown GeneratorExit kind.  While the wrapped plan runs
+   (the do-prefix has been answered completely, the plan is at p') and the plan accepts the close: the plan is closed,
+   NO undo message is emitted (finalize_wrapper's `except GeneratorExit: cleanup = False`; from C22's
+   C22_no_cleanup_when_closed_in_plan: the only plan touched is the wrapped one), close() returns / the thrown kind
+   comes back, and whatever follows in the script is not consumed. *)
+Theorem C23_stage_wrapper_closed_in_plan :
+  forall (P : Type) (resume : P -> input -> outcome P) (mk : mview -> msg) (is_status : val -> bool)
+         (roots : list dev) (p : P) (s : list input) ms acc rest p' v i s2,
+    plain s = true ->
+    lp_split is_status (stage_do mk roots) (Send VNone :: s) = (ms, Some (TRet v, acc, rest)) ->
+    after resume p (Send VNone :: rest) = Some p' ->
+    close_result (resume p' Close) = CloseOk -> ge_input i = true ->
+    trace (stage_wrapper_resume resume mk is_status roots) (stage_wrapper_init mk roots p) (Send VNone :: s ++ i :: s2)
+    = stage_ref resume mk is_status roots p s ++ [closed_obs i].
+Proof. exact @stage_closed_in_plan. Qed.
+Print Assumptions C23_stage_wrapper_closed_in_plan.
+
+Theorem C23_suspend_wrapper_closed_in_plan :
+  forall (P : Type) (resume : P -> input -> outcome P) (mk : mview -> msg) (is_status : val -> bool)
+         (susps : list nat) (p : P) (s : list input) ms acc rest p' v i s2,
+    plain s = true ->
+    lp_split is_status (LPStart (install_msgs mk susps) None) (Send VNone :: s) = (ms, Some (TRet v, acc, rest)) ->
+    after resume p (Send VNone :: rest) = Some p' ->
+    close_result (resume p' Close) = CloseOk -> ge_input i = true ->
+    trace (suspend_wrapper_resume resume mk is_status susps) (suspend_wrapper_init mk susps p) (Send VNone :: s ++ i :: s2)
+    = suspend_ref resume mk is_status susps p s ++ [closed_obs i].
+Proof. exact @suspend_closed_in_plan. Qed.
+Print Assumptions C23_suspend_wrapper_closed_in_plan.
+
+Theorem C23_subs_wrapper_closed_in_plan :
+  forall (P : Type) (resume : P -> input -> outcome P) (mk : mview -> msg) (is_status : val -> bool)
+         (set_iter : list val -> list val) (subs : list (nat * nat)) (p : P) (s : list input) ms acc rest p' v i s2,
+    plain s = true ->
+    lp_split is_status (LPStart (subscribe_msgs mk subs) None) (Send VNone :: s) = (ms, Some (TRet v, acc, rest)) ->
+    after resume p (Send VNone :: rest) = Some p' ->
+    close_result (resume p' Close) = CloseOk -> ge_input i = true ->
+    trace (subs_resume resume mk is_status set_iter) (subs_wrapper_init mk subs p) (Send VNone :: s ++ i :: s2)
+    = subs_ref resume mk is_status set_iter subs p s ++ [closed_obs i].
+Proof. exact @subs_closed_in_plan. Qed.
+Print Assumptions C23_subs_wrapper_closed_in_plan.
+
+(* run_wrapper closed / halted while the wrapped plan runs: NO close_run is emitted (closing the run is left to whoever
+   closed the plan -- the RunEngine) *)
+Theorem C23_run_wrapper_closed_in_plan :
+  forall (P : Type) (resume : P -> input -> outcome P) (mk : mview -> msg) (is_status : val -> bool)
+         (p : P) uid rest p' i s2,
+    plain rest = true -> after resume p (Send VNone :: rest) = Some p' ->
+    close_result (resume p' Close) = CloseOk -> ge_input i = true ->
+    trace (rw_resume resume mk is_status) (run_wrapper_init p) (Send VNone :: Send uid :: rest ++ i :: s2)
+    = OYield (mk VOpen) :: run_ref resume mk is_status p (Send uid :: rest) ++ [closed_obs i].
+Proof. exact @run_closed_in_plan. Qed.
+Print Assumptions C23_run_wrapper_closed_in_plan.
+
+(* in EVERY state (do-prefix, wrapped plan -- also one that ignores the close --, undo plan) a closed / halted wrapper
+   never yields again: no cleanup message ever follows a close *)
+Theorem C23_close_never_yields :
+  forall (P : Type) (resume : P -> input -> outcome P) (mk : mview -> msg) (is_status : val -> bool)
+         (set_iter : list val -> list val) (i : input),
+    ge_input i = true ->
+    (forall undo x, match sw_resume resume is_status undo (DRun x) i with Yielded _ _ => False | _ => True end) /\
+    (forall x, match subs_resume resume mk is_status set_iter (DRun x) i with Yielded _ _ => False | _ => True end) /\
+    (forall uid ph, match rw_resume resume mk is_status (RwCont uid ph) i with Yielded _ _ => False | _ => True end).
+Proof. exact @wrappers_close_never_yield. Qed.
+Print Assumptions C23_close_never_yields.
+
 (* ------------------------------------------------------------------ lazily_stage_wrapper (with fixes/C23-a.diff) *)
 From BV Require Import Gen.Mutators Gen.Insert Proofs.Lazily.
 From BV Require Gen.TieRelative.
@@ -246,8 +314,9 @@ Proof. vm_compute. split; reflexivity. Qed.
 From BV Require Import Gen.During Proofs.During.
 
 (* The wrappers are two nested instances of plan_mutator (C21's verified machine) with list-inserting processors.
-   For EVERY wrapped plan and EVERY script that only sends (every message succeeds; any length), with enough fuel for the
-   machine's internal loop: the wrapper's trace is the two-fold EXPANSION of the wrapped plan -- [after] inserted behind
+   For EVERY wrapped plan and (this first theorem) EVERY script that only sends (every message succeeds; any length;
+   the theorem for all scripts follows below), with enough fuel for the machine's internal loop: the wrapper's trace
+   is the two-fold EXPANSION of the wrapped plan -- [after] inserted behind
    every open_run message object the plan yields for the first time, [before] in front of every close_run message
    object it yields for the first time (a message OBJECT yielded again passes bare: finding C23-c). *)
 Theorem C23_during_is_expansion :
@@ -289,6 +358,40 @@ Theorem C23_during_lists :
     (Forall (fun a => is_open view a = false) (fly_after mk devs) /\ Forall (fun a => is_close view a = false) (fly_before mk devs)).
 Proof. intros mk view H devs. split; [exact (monitor_lists_clean mk view H devs)|exact (fly_lists_clean mk view H devs)]. Qed.
 Print Assumptions C23_during_lists.
+
+(* EVERY script (any input kind, any length): the wrapper is `return (yield from <the two-fold expansion>)`, where the
+   expansion [exp_resume] is defined for all inputs (Gen/During.v).  Proved on C21's reference semantics of plan_mutator
+   and transported to the plan_mutator machine by C21's simulation (C21_plan_mutator_is_insert_spec's lemma). *)
+From BV Require Import Proofs.DuringFull.
+Theorem C23_during_is_expansion_full :
+  forall (P : Type) (resume : P -> input -> outcome P) (view : msg -> mview) (is_status : val -> bool)
+         (after before : list msg) (p : P) (s : list input) (fuel : nat),
+    Forall (fun a => is_open view a = false) after -> Forall (fun a => is_close view a = false) before ->
+    trace (during_resume resume view is_status (8 + fuel) after before) (during_init p) s
+    = trace (d_resume (exp_resume (exp_resume resume (ins_after view after)) (ins_before view before)))
+            (DStart (EStart (EStart p))) s.
+Proof. exact @during_is_expansion_full. Qed.
+Print Assumptions C23_during_is_expansion_full.
+
+(* ... in which an Exception kind thrown at ANY message of a block -- an inserted monitor / kickoff / wait / unmonitor /
+   complete / collect message or the plan's own open_run / close_run -- reaches the wrapped plan (the layer below) at
+   its original yield, and the rest of the block is dropped (so: a failure among the unmonitor / complete / collect
+   messages means the close_run does NOT leave; the plan sees the failure at its close_run) *)
+Theorem C23_expansion_throw :
+  forall (Q : Type) (qres : Q -> input -> outcome Q) (ins : msg -> option (list msg) * option (list msg)) x q seen e,
+    e_host_of x = Some (q, seen) -> is_GeneratorExit e = false -> is_Exception e = true ->
+    exp_resume qres ins x (Throw e) = e_host ins seen (qres q (Throw e)).
+Proof. exact @expansion_throw. Qed.
+Print Assumptions C23_expansion_throw.
+
+(* ... and close() / a GeneratorExit kind closes the wrapped plan and ends the wrapper; nothing is inserted *)
+Theorem C23_expansion_close :
+  forall (Q : Type) (qres : Q -> input -> outcome Q) (ins : msg -> option (list msg) * option (list msg)) x q seen,
+    e_host_of x = Some (q, seen) ->
+    exp_resume qres ins x Close = e_close qres q EGeneratorExit /\
+    forall e, is_GeneratorExit e = true -> exp_resume qres ins x (Throw e) = e_close qres q e.
+Proof. exact @expansion_close. Qed.
+Print Assumptions C23_expansion_close.
 
 (* non-vacuity: one run with two monitored signals *)
 Definition du_tbl : list mview := [VOpen; VCmd 0 0; VClose None None; VMonitor 0; VMonitor 1; VUnmonitor 0; VUnmonitor 1].
